@@ -167,6 +167,12 @@ func (dec *Decoder) ReadStruct(t reflect.Type) {
 }
 
 func (dec *Decoder) getStructInfo(index int) structInfo {
+	if index < 0 || index >= len(dec.ref) {
+		if dec.Error == nil {
+			dec.Error = DecodeError("hprose/io: class index out of range")
+		}
+		return structInfo{}
+	}
 	return dec.ref[index]
 }
 
